@@ -37,6 +37,8 @@ TARGETS = {
                  segs=["code", "xdata", "idata", "data"]),
     "68000": dict(hdr=0x01, gran=1, byte="dc.b", word=("dc.w", 2, "be"), long=("dc.l", 4, "be"), res="ds.b", dup="[%d]%s",
                   limit=0xFFFFFF, segs=["code"], prologue="\tpadding off\n"),
+    "17c42": dict(hdr=0x72, gran=2, unit=("data", 2, "le", 0xFFFF), res="res", dup=None, limit=0xFFFF, segs=["code"]),
+    "320c25": dict(hdr=0x75, gran=2, unit=("word", 2, "le", 0xFFFF), res="bss", dup=None, limit=0xFFFF, segs=["code"]),
     "16c84": dict(hdr=0x70, gran=2, unit=("data", 2, "le", 0x3FFF), res="res", dup=None, limit=0x3FF, segs=["code"]),
     "320c30": dict(hdr=0x76, gran=4, unit=("word", 4, "le", 0xFFFFFFFF), res="bss", dup=None, limit=0xFFFFFF, segs=["code"]),
 }
@@ -98,7 +100,7 @@ def gen_program(rng, big=False):
         m.pcs[m.seg] = a
         L.append("\torg %d" % a)
 
-    switch_cpu(rng.choice(["68000", "320c30"]) if big else rng.choice(cpus))
+    switch_cpu(rng.choice(["68000", "320c30", "17c42", "320c25"]) if big else rng.choice(cpus))
     org(rng.choice([0, 0, 16, 256, 4096]) if limit() >= 8192 else rng.choice([0, 16]))
     n = rng.randint(1, 60)
     for _ in range(n):
@@ -113,6 +115,18 @@ def gen_program(rng, big=False):
                 cnt = rng.choice(LENS) if rng.chance(0.5) else rng.randint(1, 40)
             if "unit" in t:
                 stmt, width, order, vmax = t["unit"]
+                if big and cnt >= 60000:
+                    # one contiguous run straddling the 64 KiB record limit, in lines of 32 equal words
+                    cnt = max(1, min(cnt // width + rng.choice([-1, 0, 0, 1, 2]), room, (budget - total) // width))
+                    v = rng.below(vmax + 1)
+                    done = 0
+                    while done < cnt:
+                        k2 = min(32, cnt - done)
+                        L.append("\t%s %s" % (stmt, ",".join([str(v)] * k2)))
+                        m.emit(enc(v, width, order) * k2)
+                        done += k2
+                    total += cnt * width
+                    continue
                 cnt = max(1, min(cnt, room, (budget - total) // width, 300))
                 if cnt <= 0 or room < 1:
                     continue
